@@ -665,6 +665,10 @@ enum Dec {
 	SegOutput,
 	SegRangeProof,
 	SegBitmap,
+	/// input = 8 bytes (big endian) of the archive header's MMR size for that tree, then the segment: the size a
+	/// segment is validated against comes from a header the node holds by its proof of work only (0 kernel,
+	/// 1 output, 2 range proof)
+	SegSized(u8),
 	ProofRead,
 	ProofFromHex,
 	ApiTx,
@@ -699,6 +703,7 @@ impl Subject {
 			Dec::SegOutput => kind == "OutputSegment",
 			Dec::SegRangeProof => kind == "RangeProofSegment",
 			Dec::SegBitmap => kind == "BitmapSegment",
+			Dec::SegSized(_) => false,
 			Dec::ProofRead => kind == "MerkleProof",
 			Dec::ProofFromHex => kind == "hex:MerkleProof",
 			Dec::ApiTx => kind == "Transaction",
@@ -720,6 +725,9 @@ fn subjects() -> Vec<Subject> {
 	v.push(Subject { name: "segment:Output".into(), dec: Dec::SegOutput, family: Family::Body, site: "segment.read".into() });
 	v.push(Subject { name: "segment:RangeProof".into(), dec: Dec::SegRangeProof, family: Family::Body, site: "segment.read".into() });
 	v.push(Subject { name: "segment:Bitmap".into(), dec: Dec::SegBitmap, family: Family::Body, site: "bitmapsegment.read".into() });
+	v.push(Subject { name: "segment@size:Kernel".into(), dec: Dec::SegSized(0), family: Family::Body, site: "segment.read".into() });
+	v.push(Subject { name: "segment@size:Output".into(), dec: Dec::SegSized(1), family: Family::Body, site: "segment.read".into() });
+	v.push(Subject { name: "segment@size:RangeProof".into(), dec: Dec::SegSized(2), family: Family::Body, site: "segment.read".into() });
 	v.push(Subject { name: "merkleproof.read".into(), dec: Dec::ProofRead, family: Family::Body, site: "merkleproof.read".into() });
 	v.push(Subject { name: "merkleproof.from_hex".into(), dec: Dec::ProofFromHex, family: Family::Hex, site: "merkleproof.from_hex".into() });
 	v.push(Subject { name: "api.tx.deserialize".into(), dec: Dec::ApiTx, family: Family::Body, site: "api.tx.deserialize".into() });
@@ -1201,6 +1209,20 @@ fn run_case(s: &Subject, v: u32, input: &[u8], c: &RunCtx) -> Result<Classes, Vi
 			seg_class(&s.validate_with(c.o_size, Some(&c.bitmap), c.header_output_root, c.o_size, c.bm_root, false))
 		}),
 		Dec::SegBitmap => ex_bitmap::<BitmapSegment>(site, input, pv, c, |s| (s, c.o_pmmr_root)),
+		Dec::SegSized(t) => {
+			if input.len() < 8 {
+				return Ok(("short", ""));
+			}
+			let mut b8 = [0u8; 8];
+			b8.copy_from_slice(&input[..8]);
+			let size = u64::from_be_bytes(b8);
+			let rest = &input[8..];
+			match t {
+				0 => ex_then::<Segment<TxKernel>>(site, "segment.validate", rest, pv, |s| seg_class(&s.validate(size, None, c.k_root))),
+				1 => ex_then::<Segment<OutputIdentifier>>(site, "segment.validate_with", rest, pv, |s| seg_class(&s.validate_with(size, Some(&c.bitmap), c.header_output_root, size, c.bm_root, false))),
+				_ => ex_then::<Segment<RangeProof>>(site, "segment.validate", rest, pv, |s| seg_class(&s.validate(size, Some(&c.bitmap), c.r_root))),
+			}
+		}
 		Dec::ProofRead => {
 			let r = run_stage(site, input.len(), || ser::deserialize::<MerkleProof, _>(&mut &input[..], pv, DeserializationMode::default()))?;
 			Ok(match r {
@@ -2147,7 +2169,7 @@ impl Engine for C11 {
 		}
 	}
 	fn parts(&self, _tier: Tier) -> Vec<(&'static str, usize)> {
-		vec![("monitors", 1), ("short", 1), ("trunc", 1), ("fields", 1), ("bytes", 1), ("splice", 1), ("text", 1)]
+		vec![("monitors", 1), ("short", 1), ("trunc", 1), ("fields", 1), ("bytes", 1), ("splice", 1), ("text", 1), ("header-sizes", 1)]
 	}
 	fn run_part(&self, part: &str, tier: Tier, _shard: usize, _n: usize) -> Report {
 		if part == "worker" {
@@ -2202,6 +2224,41 @@ impl Engine for C11 {
 			cat.explicit = inputs.into_iter().map(|input| Explicit { subject: "merkleproof.from_hex".into(), v: 1000, input }).collect();
 			let mut r = run_pool(&cat, tier, "explicit");
 			r.extra.insert("text_inputs".into(), json!(cat.explicit.len() as u64));
+			return r;
+		}
+		if part == "header-sizes" {
+			// every honest segment of the catalogue validated against every small MMR size (valid or not: 2, 5, 6, 9 ...
+			// are no MMR sizes), sizes around its own, around powers of two and at the top of the u64 range
+			let mut cat = catalogue().clone();
+			let mut inputs: Vec<(String, u32, Vec<u8>)> = vec![];
+			let mut sizes: Vec<u64> = (0..=tier.pick(300u64, 4000u64)).collect();
+			for k in 1..64u32 {
+				for d in [-2i64, -1, 0, 1] {
+					sizes.push(((1u64 << k) as i128 + d as i128).max(0) as u64);
+				}
+			}
+			sizes.extend_from_slice(&[u64::MAX, u64::MAX - 1, u64::MAX / 2, u64::MAX / 2 + 1]);
+			sizes.sort();
+			sizes.dedup();
+			for sd in cat.seeds.iter().filter(|s| s.v == 1000 || s.v == 1) {
+				let subject = match sd.kind.as_str() {
+					"KernelSegment" => "segment@size:Kernel",
+					"OutputSegment" => "segment@size:Output",
+					"RangeProofSegment" => "segment@size:RangeProof",
+					_ => continue,
+				};
+				for sz in &sizes {
+					let mut inp = sz.to_be_bytes().to_vec();
+					inp.extend_from_slice(&sd.enc.bytes);
+					inputs.push((subject.to_string(), sd.v, inp));
+				}
+			}
+			inputs.sort();
+			inputs.dedup();
+			cat.explicit = inputs.into_iter().map(|(subject, v, input)| Explicit { subject, v, input }).collect();
+			let mut r = run_pool(&cat, tier, "explicit");
+			r.extra.insert("header_size_inputs".into(), json!(cat.explicit.len() as u64));
+			r.extra.insert("header_sizes".into(), json!(sizes.len() as u64));
 			return r;
 		}
 		let cat = catalogue();
